@@ -29,6 +29,7 @@ AMPS = np.array([1.0, 2.5, -0.75, 4.0, 0.5, 3.25, -1.5, 2.0, 1.75, 0.25, 5.0, -2
 
 
 def brute(infr, infr2, inam2, e1, e2, mode):
+    infr, infr2 = np.asarray(infr, dtype=float), np.asarray(infr2, dtype=float)
     T, M, K = infr2.shape
     n1, n2 = len(e1) - 1, len(e2) - 1
     H = np.zeros((T, n2, n1))
@@ -65,8 +66,9 @@ def compare(ctx, infr, infr2, inam2, e1, e2, mode, case, tag):
     H = brute(infr, infr2, inam2, e1, e2, mode)
     tot = np.abs(inam2 ** 2 if mode == 'energy' else inam2).sum() or 1.0
     tol = 1e-12 * tot
-    in1 = (infr >= e1[0]) & (infr < e1[-1])
-    in2 = (infr2 >= e2[0]) & (infr2 < e2[-1])
+    f1, f2 = np.asarray(infr, dtype=float), np.asarray(infr2, dtype=float)
+    in1 = (f1 >= e1[0]) & (f1 < e1[-1])
+    in2 = (f2 >= e2[0]) & (f2 < e2[-1])
     both = in1[:, :, None] & in2
     special = (~both).any() or np.isin(infr, e1).any() or np.isin(infr2, e2).any()
     ctx.case(digest(infr, infr2, e1, e2, mode), bool(both.any() and special))
@@ -144,9 +146,18 @@ def run_shard(ctx):
             inam2[rng.integers(0, T), :, :] = 0.0  # a time point without any energy
             ctx.count('with_silent_time_point')
         mode = gens.pick(rng, ['energy', 'amplitude'])
-        case = {'kind': 'holo', 'infr': infr, 'infr2': infr2, 'inam2': inam2, 'e1': e1, 'e2': e2, 'mode': mode}
+        fr = rng.random()
+        if fr < .1:
+            infr, infr2 = infr.astype(np.float32), infr2.astype(np.float32)
+        infr, l1 = gens.relayout(rng, infr)
+        infr2, l2 = gens.relayout(rng, infr2)
+        inam2, l3 = gens.relayout(rng, inam2)
+        ctx.count('layout:%s/%s/%s' % (l1, l2, l3))
+        ctx.count('freq_dtype:%s' % infr.dtype)
+        case = {'kind': 'holo', 'infr': infr, 'infr2': infr2, 'inam2': inam2, 'e1': e1, 'e2': e2, 'mode': mode,
+                'layouts': [l1, l2, l3], 'freq_dtype': str(infr.dtype)}
         try:
-            compare(ctx, infr.copy(), infr2.copy(), inam2.copy(), e1, e2, mode, case, 'random')
+            compare(ctx, infr, infr2, inam2, e1, e2, mode, case, 'random')
         except Exception as e:
             ctx.violation('exception:%s' % type(e).__name__, 'holospectrum raised %s: %s' % (type(e).__name__, str(e)[:120]), case)
 
@@ -186,4 +197,9 @@ def finalize(agg, tier):
 
 def replay(ctx, case):
     f = lambda k: np.asarray(case[k], float)
-    compare(ctx, f('infr'), f('infr2'), f('inam2'), f('e1'), f('e2'), case['mode'], case, 'replay')
+    infr, infr2, inam2 = f('infr').astype(case.get('freq_dtype', 'float64')), f('infr2').astype(case.get('freq_dtype', 'float64')), f('inam2')
+    if case.get('layouts'):
+        infr, _ = gens.relayout(None, infr, case['layouts'][0])
+        infr2, _ = gens.relayout(None, infr2, case['layouts'][1])
+        inam2, _ = gens.relayout(None, inam2, case['layouts'][2])
+    compare(ctx, infr, infr2, inam2, f('e1'), f('e2'), case['mode'], case, 'replay')
